@@ -187,13 +187,25 @@ def r1_handler_census(ctx: Ctx) -> None:
                       "a result without error is returned only after scanning and parsing both completed")
 
 
+def _is_zero_status(v: ast.AST | None) -> bool:
+    """a return value that a caller reads as `no error`: 0 in any literal spelling (0, -0, 0x0, 1 - 1), None, False, or nothing"""
+    if v is None:
+        return True
+    if isinstance(v, ast.Constant):
+        return v.value is None or v.value is False or (isinstance(v.value, (int, float)) and v.value == 0)
+    from ..match import const_int as _ci
+
+    c = _ci(v)
+    return c is not None and c == 0
+
+
 def r2_entry_point_status(ctx: Ctx) -> None:
     awe = ctx.repo.func(PROGRAM, "Program.assemble_with_emitter")
     g = CFG(awe.node)
     succ_nodes = []
     for n in walk_no_nested(awe.node):
-        if isinstance(n, ast.Return) and n.value is not None and unparse(n.value) in ("0", "None", "False"):
-            succ_nodes.append(("return " + unparse(n.value), g.node_of(n)))
+        if isinstance(n, ast.Return) and _is_zero_status(n.value):
+            succ_nodes.append(("return " + (unparse(n.value) if n.value is not None else "None"), g.node_of(n)))
         if isinstance(n, ast.Expr) and isinstance(n.value, ast.Call) and (call_name(n.value) or "").endswith("logger.info") and "Success" in unparse(n.value):
             succ_nodes.append(("success log", g.node_of(n)))
     if not any(k.startswith("return") for k, _ in succ_nodes):
@@ -482,4 +494,11 @@ def rm_no_process_lifetime_results(ctx: Ctx) -> None:
     state_rule(ctx)
 
 
-RULES = [r1_handler_census, r2_entry_point_status, r3_error_values_consumed, r4_success_last, r5_escape_obligations, r6_whole_input_is_parsed, r7_unmapped_address_rejected, r8_recovery_scope, rb_binding_agreement, rm_no_process_lifetime_results]
+def ru_names_bound(ctx: Ctx) -> None:
+    """a local read but never bound raises NameError for every input that reaches the statement (shared rule, names.py)"""
+    from ..names import names_rule
+
+    names_rule(ctx)
+
+
+RULES = [r1_handler_census, r2_entry_point_status, r3_error_values_consumed, r4_success_last, r5_escape_obligations, r6_whole_input_is_parsed, r7_unmapped_address_rejected, r8_recovery_scope, rb_binding_agreement, rm_no_process_lifetime_results, ru_names_bound]
